@@ -50,6 +50,13 @@ int main(int argc, char **argv)
     if (!strncmp(m, "lcm", 3)) {
         /* lcm on wide arguments against an independent Euclid: a = A << s, b = B (and swapped), A, B < 64 */
         int w64 = strstr(m, "64") != 0, s; uint64_t A, B;
+        if (rp_has("a") && rp_has("b")) { /* the traced argument pair first */
+            uint64_t a = rp_u64("a", 0), b = rp_u64("b", 0), u = a, v = b, t, l;
+            if (!w64) { a = (a_u32)a; b = (a_u32)b; u = a; v = b; }
+            while (v) { t = u % v; u = v; v = t; }
+            l = w64 ? a_u64_lcm(a, b) : a_u32_lcm((a_u32)a, (a_u32)b);
+            if (u && (w64 || a / u * b <= 0xFFFFFFFFu) && l != a / u * b) { printf("a_u%d_lcm(%llu, %llu) = %llu, expected %llu (gcd %llu)\n", w64 ? 64 : 32, (unsigned long long)a, (unsigned long long)b, (unsigned long long)l, (unsigned long long)(a / u * b), (unsigned long long)u); return rp_fail("lcm != a / gcd * b for a representable lcm"); }
+        }
         for (s = 0; s <= (w64 ? 40 : 20); s += (w64 ? 8 : 5)) for (A = 1; A < 64; ++A) for (B = 1; B < 64; ++B) {
             uint64_t a = A << s, b = B, u = a, v = b, t, g, l, l2;
             while (v) { t = u % v; u = v; v = t; }
